@@ -414,6 +414,68 @@ def run(chk: Check, eng: Engine) -> None:
     else:
         chk.bad("R15-c", eng.relfile(rp), rp.line, rp.fq, "TreeValue.__repr__ does not print the raw payload with repr()", "literal printing is no longer by repr", keyparts="tv-repr")
 
+    # ---- R15-d ---------------------------------------------------------------
+    # regex source is printed verbatim inside a raw literal; wherever the printer rewrites a character of it, the rewrite must see the
+    # whole run of backslashes in front of that character (a bounded look at the neighbourhood cannot tell `\'` from `\\'`)
+    chk.rule("R15-d", "a character of regex source is rewritten only by an escape-aware substitution: re.sub over `(\\*)<char>` with the replacement "
+             "computed from the length of the backslash run - never str.replace or a pattern that sees a bounded number of backslashes", floor=1)
+    import re._parser as _sre  # regex syntax trees of the *pattern literals* in the source; nothing of the repository is executed
+
+    regex_branch = [n for n in fas.node.body if isinstance(n, ast.If) and "is_regex" in norm(n.test)]  # type: ignore[attr-defined]
+    if not regex_branch:
+        raise AnalysisError("Terminal.format_as_spec: the `if self.is_regex` branch was not found")
+    n_d = 0
+    for n in ast.walk(regex_branch[0]):
+        if not isinstance(n, ast.Call):
+            continue
+        # bytes branch: repr() + un-doubling of backslashes is the documented inverse pair (every backslash is doubled by repr)
+        if isinstance(n.func, ast.Attribute) and n.func.attr == "replace" and len(n.args) == 2 and all(isinstance(a, ast.Constant) for a in n.args):
+            a0, a1 = n.args[0].value, n.args[1].value  # type: ignore[union-attr]
+            if a0 == "\\\\" and a1 == "\\":
+                recv = n.func.value
+                from_repr = isinstance(recv, ast.Name) and any(isinstance(d, ast.Assign) and isinstance(d.value, ast.Call) and call_name(d.value) == "repr" and
+                                                               any(isinstance(t, ast.Name) and t.id == recv.id for t in d.targets) for d in ast.walk(regex_branch[0]))
+                if from_repr:
+                    n_d += 1
+                    chk.ok("R15-d", fas.fq, n.lineno, "`.replace(r'\\\\', '\\')` undoes exactly the doubling repr() applied to every backslash")
+                    continue
+            n_d += 1
+            chk.bad("R15-d", eng.relfile(fas), n.lineno, fas.fq, f"`{short(n, 70)}` rewrites regex source with a context-free str.replace",
+                    "a character that is already escaped (or follows an escaped backslash) is rewritten the same way as a bare one: the printed regex denotes another language",
+                    keyparts="regex-str-replace|" + repr(a0))
+            continue
+        if norm(n.func) in ("re.sub", "regex.sub") and n.args and isinstance(n.args[0], ast.Constant) and isinstance(n.args[0].value, str):
+            n_d += 1
+            pat = n.args[0].value
+            try:
+                tree = list(_sre.parse(pat))
+            except Exception as e:  # pragma: no cover
+                raise AnalysisError(f"Terminal.format_as_spec: cannot read the pattern {pat!r}: {e}")
+            # flatten one capturing group level
+            flat = []
+            for op, av in tree:
+                if str(op) == "SUBPATTERN":
+                    flat += [(o, a, True) for o, a in av[3]]
+                else:
+                    flat.append((op, av, False))
+            sees_run = False
+            for i, (op, av, _g) in enumerate(flat[:-1]):
+                nxt = flat[i + 1]
+                if str(op) == "MAX_REPEAT" and av[0] == 0 and str(av[1]) == "MAXREPEAT" and [(str(o), a) for o, a in av[2]] == [("LITERAL", 92)] and str(nxt[0]) == "LITERAL":
+                    sees_run = True
+            repl = n.args[1] if len(n.args) > 1 else None
+            parity = repl is not None and isinstance(repl, (ast.Lambda, ast.Name)) and (not isinstance(repl, ast.Lambda) or any(
+                isinstance(x, ast.BinOp) and isinstance(x.op, (ast.FloorDiv, ast.Mod)) for x in ast.walk(repl)))
+            if sees_run and parity:
+                chk.ok("R15-d", fas.fq, n.lineno, f"`re.sub({pat!r}, ...)` sees the whole backslash run and computes the replacement from its length")
+            else:
+                chk.bad("R15-d", eng.relfile(fas), n.lineno, fas.fq, f"`re.sub({pat!r}, ...)` " + ("does not capture the whole run of backslashes before the rewritten character" if not sees_run else
+                                                                                                   "does not compute the replacement from the parity of the backslash run"),
+                        "`\\'` (escaped backslash, then a quote) and `\'` (escaped quote) cannot be told apart: one of them is printed as a different regex",
+                        keyparts="regex-sub-not-parity-aware")
+    if n_d == 0:
+        raise AnalysisError("Terminal.format_as_spec: the regex branch rewrites nothing any more (R15-d has lost its instances)")
+
 
 # ------------------------------------------------------------------ self-test variants
 from ..mutants import M  # noqa: E402
@@ -422,6 +484,10 @@ _R = "src/fandango/language/grammar/nodes/repetition.py"
 _A = "src/fandango/language/grammar/nodes/alternative.py"
 _TS = "src/fandango/language/symbols/terminal.py"
 MUTANTS = [
+    M("quote-escape-context-free", _TS, "            symbol = re.sub(\n                r\"(\\\\*)'\",\n                lambda m: m.group(1)[: len(m.group(1)) // 2 * 2] + r\"\\x27\",\n                str(self._value),\n            )\n",
+      "            symbol = str(self._value).replace(\"'\", r\"\\x27\")\n", "R15-d"),
+    M("quote-escape-sees-one-backslash", _TS, "                r\"(\\\\*)'\",\n                lambda m: m.group(1)[: len(m.group(1)) // 2 * 2] + r\"\\x27\",\n",
+      "                r\"\\\\?'\",\n                r\"\\\\x27\",\n", "R15-d"),
     M("star-unparenthesised", _R, "        return self._operand_as_spec() + \"*\"\n", "        return self.node.format_as_spec() + \"*\"\n", "R15-a"),
     M("operand-helper-forgets-repetition", _R, "        if isinstance(self.node, (Concatenation, Repetition)):\n            return f\"({spec})\"", "        if isinstance(self.node, Concatenation):\n            return f\"({spec})\"", "R15-a"),
     M("alternative-drops-parens", _A, "        return (\n            \"(\" + \" | \".join(map(lambda x: x.format_as_spec(), self.alternatives)) + \")\"\n        )",
